@@ -10,7 +10,7 @@ namespace PyAbel.Profiles
 open PyAbel.Distr (pow)
 
 section
-variable {α : Type} [Zero α] [One α] [Add α] [Sub α] [Mul α] [Div α] [NatCast α] [LE α] [DecidableRel (α := α) (· ≤ ·)]
+variable {α : Type} [Zero α] [One α] [Add α] [Sub α] [Mul α] [Div α] [Neg α] [NatCast α] [LE α] [DecidableRel (α := α) (· ≤ ·)]
   [HasSqrt α] [HasLog α]
 
 /-- a numeral -/
@@ -55,6 +55,23 @@ def proj3 (r : α) : α :=
   else
     (n 4 / n 3) * a1 * (n 1 + n 2 * pow r 2) - n 4 * pow r 2 * log ((n 1 + a1) / r)
 
+/-- profile 4 (Alvarez, Rodero, Quintero Eq. 10; decimal coefficients as published / as coded) -/
+def source4 [OfScientific α] (r : α) : α :=
+  if r ≤ (0.7 : α) then (0.1 : α) + (5.51 : α) * pow r 2 - (5.25 : α) * pow r 3
+  else -(40.74 : α) + (155.56 : α) * r - (188.89 : α) * pow r 2 + (74.07 : α) * pow r 3
+
+def proj4 [OfScientific α] (r : α) : α :=
+  let c0 : α := (377.78 : α) / n 3 - (111.115 : α)
+  let c2 : α := (755.56 : α) / n 3 - (55.5525 : α)
+  let a1 := a (n 1) r
+  if r ≤ (0.7 : α) then
+    let a7 := a (0.7 : α) r
+    (22.68862 : α) * a7 - c0 * a1 + ((217.557 : α) * a7 - c2 * a1) * pow r 2
+      + (155.56 : α) * pow r 2 * log ((n 1 + a1) / ((0.7 : α) + a7))
+      + pow r 4 * ((55.5525 : α) * log ((n 1 + a1) / r) - (59.49 : α) * log (((0.7 : α) + a7) / r))
+  else
+    -c0 * a1 - c2 * a1 * pow r 2 + pow r 2 * ((155.56 : α) + (55.5525 : α) * pow r 2) * log ((n 1 + a1) / r)
+
 /-- profile 5: the unit disc -/
 def source5 (_ : α) : α := n 1
 def proj5 (r : α) : α := n 2 * a (n 1) r
@@ -64,11 +81,12 @@ def source7 (r : α) : α := (n 1 + n 10 * pow r 2 - n 23 * pow r 4 + n 12 * pow
 def proj7 (r : α) : α := a (n 1) r * (n 19 + n 34 * pow r 2 - n 125 * pow r 4 + n 72 * pow r 6) * n 8 / n 105
 
 /-- dispatch used by the driver -/
-def pair (k : Nat) (r : α) : Option (α × α) :=
+def pair [OfScientific α] (k : Nat) (r : α) : Option (α × α) :=
   match k with
   | 1 => some (source1 r, proj1 r)
   | 2 => some (source2 r, proj2 r)
   | 3 => some (source3 r, proj3 r)
+  | 4 => some (source4 r, proj4 r)
   | 5 => some (source5 r, proj5 r)
   | 7 => some (source7 r, proj7 r)
   | _ => none
